@@ -282,7 +282,10 @@ def check_countq(wrapper):
                 worst = max(worst, abs(s['vote'] - b['cstate'][c]['vote']))
     if worst > ulp:
         n = og.nballots
-        bound = Fraction(4 * n * case['ncand'] * max(1, og.iterations, len(ag)), 10 ** (p + g))
+        # identity of known finding F14 (classification only, not an oracle tolerance): truncation errors of one ulp per operation,
+        # about n*ncand operations per step, damped by the iteration's contraction (margin 64); with >= 5 guard digits on
+        # small elections this bound is below 10^-p, so there every deviation is reported as new
+        bound = Fraction(64 * n * case['ncand'] * max(1, og.iterations, len(ag)), 10 ** (p + g))
         kind = 'within-truncation-bound' if worst <= bound else 'beyond-truncation-bound'
         res.fail('countq', base + '|deviation|' + kind,
                  'p=%d g=%d: largest tally/quota deviation %s > 10^-p (accumulated-truncation bound %s)' % (p, g, float(worst), float(bound)))
